@@ -114,17 +114,27 @@ def src_of(stmts, ptext):
 
 
 class Ctx:
-    def __init__(self, vecs):
+    """Index over all emitted vectors: only what other histories need (the record of the last call of
+    every history, and the per-configuration vectors) is kept in memory."""
+
+    def __init__(self, vecs=()):
         self.by = {}
         self.cfgs = {}
-        for v in vecs:
-            self.by[(v["cfg"], hist_key(v["hist"]))] = v
-            if not v["hist"]:
-                self.cfgs[v["cfg"]] = v
         self.ptext = None
-        for c in self.cfgs.values():
-            self.ptext = c["ptext"]
-        self.probe_ids = ["P%02d" % (i + 1) for i in range(len(self.ptext or []))]
+        self.probe_ids = []
+        for v in vecs:
+            self.add(v)
+
+    def add(self, v):
+        k = (v["cfg"], hist_key(v["hist"]))
+        if k in self.by:
+            return False
+        self.by[k] = {"last": v["last"]}
+        if not v["hist"]:
+            self.cfgs[v["cfg"]] = v
+            self.ptext = v["ptext"]
+            self.probe_ids = ["P%02d" % (i + 1) for i in range(len(self.ptext))]
+        return True
 
 
 def build_case(cx, v):
@@ -292,7 +302,7 @@ def evaluate(ck, cases, results, sample=True):
                     d, kind = "Runner.%s after Reset+probe differs from the fresh runner: %r" % (fld.capitalize(), diffs), fld
                     break
         if d:
-            ck.violation("Reset then probe differs from a fresh runner (%s) after [%s]" % (kind, last_run(case["hist"])),
+            ck.violation("Reset then probe differs from a fresh runner (%s)" % kind,
                          dict(rec, impl=got, fresh=fresh, spec=exp_after, where=where, diff=d))
             continue
         # -- C / D: whole file vs statement-at-a-time
@@ -343,47 +353,79 @@ def replay_cases(ck, cases, h):
 def run(ck):
     h = vlib.build_harness("runner")
     quick = ck.tier == "quick"
-    t = vlib.run_tlc("ShRunnerLife", "ShRunnerLife.%s.cfg" % ck.tier, workers=8 if quick else 16,
-                     timeout=400 if quick else 1500)
-    ck.add_tlc(t)
-    if not t.ok:
-        raise vlib.Inconclusive("ShRunnerLife: contract model inconsistent:\n" + (t.violation or t.raw_tail))
-    vecs = t.vecs.get("VEC", [])
-    nsim = 150 if quick else 4000
-    ts = vlib.run_tlc("ShRunnerLife", "ShRunnerLife.sim.cfg", simulate=nsim, depth=7, seed=ck.seed,
-                      timeout=400 if quick else 900)
-    ck.add_tlc(ts)
-    if not ts.ok:
-        raise vlib.Inconclusive("ShRunnerLife (simulation): contract model inconsistent:\n" + (ts.violation or ts.raw_tail))
-    seen = {(v["cfg"], hist_key(v["hist"])) for v in vecs}
-    nbfs = len(vecs)
-    for v in ts.vecs.get("VEC", []):
-        k = (v["cfg"], hist_key(v["hist"]))
-        if k not in seen:
-            seen.add(k)
-            vecs.append(v)
-    cx = Ctx(vecs)
-    if not cx.ptext or not cx.cfgs:
-        raise vlib.Inconclusive("no configuration vectors emitted")
-    cases = [build_case(cx, v) for v in vecs]
-    if os.environ.get("VERIF_CORRUPT"):
-        i = ck.rng.randrange(len(cases))
-        cases[i] = corrupt(cases[i], ck.rng)
-    ck.notes["histories_bfs"] = nbfs
-    ck.notes["histories_simulated_new"] = len(vecs) - nbfs
-    ck.notes["max_history_length"] = max(len(v["hist"]) for v in vecs)
-    ck.cov["exhaustive"] = True
-    ck.cov["rule"] = ("one replay per history emitted by TLC (BFS: every history of Run(p)/Reset%s actions up to MaxHist over "
-                      "the %d-statement library x configurations; plus %d simulated behaviours of length <= 6); evaluations = "
-                      "observed API calls/call sequences compared with the spec (each history call, probe, fresh probe, "
-                      "Reset+probe, whole file, statement-at-a-time); non-trivial = history whose final abstract runner state "
-                      "differs from Init(cfg)" % ("/Stmtwise(p)" if not quick else "", 44, nsim))
-    ck.assumptions += ["statement library and probe of spec/ShRunnerLife.tla (44 statements, 21 probe lines, 4 configurations)",
-                       "external commands are never spawned (exec handler reports 'not found')",
-                       "named deviations from bash inside the library (Dev_* in the spec) are modelled as the interpreter behaves; they are not the subject of C30"]
-    step = 4000
-    for o in range(0, len(cases), step):
-        replay_cases(ck, cases[o:o + step], h)
+    work = vlib.scratch("c30-")
+    try:
+        runs = [("ShRunnerLife.%s.cfg" % ck.tier, None)]
+        if not quick:
+            runs.append(("ShRunnerLife.stmt.cfg", None))
+        nsim = 150 if quick else 3000
+        runs.append(("ShRunnerLife.sim.cfg", nsim))
+        files = []
+        for cfgname, sim in runs:
+            path = os.path.join(work, cfgname + ".ndjson")
+            with open(path, "w") as f:
+                if sim:
+                    t = vlib.run_tlc("ShRunnerLife", cfgname, simulate=sim, depth=7, seed=ck.seed, timeout=1500,
+                                     stream_to={"VEC": f})
+                else:
+                    t = vlib.run_tlc("ShRunnerLife", cfgname, workers=8 if quick else 16, timeout=400 if quick else 3000,
+                                     stream_to={"VEC": f})
+            ck.add_tlc(t)
+            if not t.ok:
+                raise vlib.Inconclusive("ShRunnerLife (%s): contract model inconsistent:\n%s" % (cfgname, t.violation or t.raw_tail))
+            files.append((path, bool(sim)))
+        # pass 1: index
+        cx = Ctx()
+        nb = nsimnew = 0
+        for path, is_sim in files:
+            for l in open(path):
+                if cx.add(json.loads(l)):
+                    if is_sim:
+                        nsimnew += 1
+                    else:
+                        nb += 1
+        if not cx.ptext or not cx.cfgs:
+            raise vlib.Inconclusive("no configuration vectors emitted")
+        ck.notes["histories_bfs"] = nb
+        ck.notes["histories_simulated_new"] = nsimnew
+        ck.cov["exhaustive"] = True
+        ck.cov["rule"] = ("one replay per history emitted by TLC (BFS: every history of Run(p)/Reset actions up to MaxHist over the "
+                          "44-statement library x configurations%s; plus %d simulated behaviours of length <= 6 with Stmtwise(p) "
+                          "actions too); evaluations = observed API calls / call sequences compared with the spec (each history "
+                          "call, probe, fresh probe, Reset+probe, whole file, statement-at-a-time); non-trivial = history whose "
+                          "final abstract runner state differs from Init(cfg)" % (
+                              "" if quick else "; and every history of length <= 2 that also uses Stmtwise(p)", nsim))
+        ck.assumptions += ["statement library and probe of spec/ShRunnerLife.tla (44 statements, 21 probe lines, 4 configurations)",
+                           "external commands are never spawned (exec handler reports 'not found')",
+                           "named deviations from bash inside the library (Dev_* in the spec) are modelled as the interpreter behaves; they are not the subject of C30"]
+        # pass 2: replay in chunks
+        done = set()
+        chunk = []
+        maxlen = 0
+        corrupt_at = ck.rng.randrange(200) if os.environ.get("VERIF_CORRUPT") else -1
+        n = 0
+        for path, _ in files:
+            for l in open(path):
+                v = json.loads(l)
+                k = (v["cfg"], hist_key(v["hist"]))
+                if k in done:
+                    continue
+                done.add(k)
+                maxlen = max(maxlen, len(v["hist"]))
+                case = build_case(cx, v)
+                if n == corrupt_at:
+                    case = corrupt(case, ck.rng)
+                n += 1
+                chunk.append(case)
+                if len(chunk) >= 4000:
+                    replay_cases(ck, chunk, h)
+                    chunk = []
+        if chunk:
+            replay_cases(ck, chunk, h)
+        ck.notes["max_history_length"] = maxlen
+    finally:
+        import shutil
+        shutil.rmtree(work, ignore_errors=True)
 
 
 def replay(ck, rec):
